@@ -319,6 +319,82 @@ theorem C13_source_activeWithNeighbors_bool_literal : rd_active_with_neighbors_b
 
 end SourceTieD4
 
+/-! ### Capstones: (bridge) + (property) composed - the TRANSLATED SVG draw code itself emits one correctly placed shape per dark
+module (`Spec.shapesOK`). -/
+section Capstone
+open QR.Gen.Code QR.SourceTieB QR.SourceTieD4
+
+/-- **capstone, element factories (`SvgFragmentImage`, `SvgImage`, `SvgFillImage`): `main.py:QRCode.make_image` (draw loop, class
+    flags) + `image/base.py:BaseImageWithDrawer.drawrect_context` (with `is_eye`, `pixel_box`) +
+    `image/styles/moduledrawers/svg.py:SvgQRModuleDrawer.drawrect`** (all translated).  Partly translated chain: the drawer's
+    `self.el(box)` is the parameter `render` applied to the Model's `drawShape` (tied to the translated `coords` / `el` separately by
+    `C13_source_drawShape_src`); `render` (XML serialisation) is arbitrary.  The elements appended to the document are
+    `shapes.map render` for a list `shapes` that satisfies `Spec.shapesOK` - exactly one shape per dark module in row-major
+    order, none for light modules, each centred on its module's cell and not larger than it - and has as many entries as
+    there are dark modules.  From `C13_source_svgDraw_src`, `C13_shapes`, `C13_count`. -/
+theorem C13_source_capstone_svg_elements (f : SvgFactory) (hf : f.isPath = false) (render : Nat × SvgShape → rd_Element)
+    (renderP : Nat × SvgShape → String) (md ed : SvgDrawer) (M : Mods) (n border box : Nat) (awn : Nat → Nat → Bool)
+    (drawrect : Nat → Nat → rd_SvgImg → rd_SvgImg) (img : rd_SvgImg) (hm : md.num ≤ md.den) (he : ed.num ≤ ed.den) :
+    ∃ shapes : List (Nat × SvgShape),
+      (makeImageDraw (factoryName f) n M
+        (rd_drawrect_context border box n ed md (needsNeighbors f.isPath) awn id M (svgDrawrect f.isPath render renderP box))
+        drawrect rd_svg_path_process img).img = img.img ++ shapes.map render ∧
+      Spec.shapesOK M n border box (shapes.map Proofs.Svg.blobOf) = true ∧
+      shapes.length = (Spec.darkCells M n).length := by
+  refine ⟨(svgDoc f md ed M n border box).shapes, ?_, C13_shapes f md ed M n border box hm he, C13_count f md ed M n border box⟩
+  rw [C13_source_svgDraw_src]
+  simp only [hf]
+  rfl
+
+/-- **capstone, path factories (`SvgPathImage`, `SvgPathFillImage`): `image/svg.py:SvgPathImage.__init__` + `make_image` (draw
+    loop) + `drawrect_context` + `svg.py:SvgPathQRModuleDrawer.drawrect` + `image/svg.py:SvgPathImage.process`** (all
+    translated; the drawer's `self.subpath(box)` is the parameter `renderP` applied to the Model's `drawShape`, as above; the
+    base-class constructor `superInit` must leave `_subpaths` empty): the `d` attribute of the final `<path>` is the
+    concatenation of `shapes.map renderP` for a list `shapes` satisfying `Spec.shapesOK`, one entry per dark module.
+    From `C13_source_svgPathD_src`, `C13_shapes`, `C13_count`. -/
+theorem C13_source_capstone_svg_path (f : SvgFactory) (hf : f.isPath = true) (render : Nat × SvgShape → rd_Element)
+    (renderP : Nat × SvgShape → String) (md ed : SvgDrawer) (M : Mods) (n border box : Nat) (awn : Nat → Nat → Bool)
+    (drawrect : Nat → Nat → rd_SvgImg → rd_SvgImg) (superInit : rd_SvgImg → rd_SvgImg) (self : rd_SvgImg)
+    (hsuper : (superInit { self with subpaths := [] }).subpaths = []) (hm : md.num ≤ md.den) (he : ed.num ≤ ed.den) :
+    ∃ shapes : List (Nat × SvgShape),
+      ((makeImageDraw (factoryName f) n M
+        (rd_drawrect_context border box n ed md (needsNeighbors f.isPath) awn id M (svgDrawrect f.isPath render renderP box))
+        drawrect rd_svg_path_process (rd_svg_path_init superInit self)).path.map fun p => p.attrs.lookup "d")
+        = some (some ("".intercalate (shapes.map renderP))) ∧
+      Spec.shapesOK M n border box (shapes.map Proofs.Svg.blobOf) = true ∧
+      shapes.length = (Spec.darkCells M n).length :=
+  ⟨(svgDoc f md ed M n border box).shapes,
+    C13_source_svgPathD_src f hf render renderP md ed M n border box awn drawrect superInit self hsuper,
+    C13_shapes f md ed M n border box hm he, C13_count f md ed M n border box⟩
+
+/-- **capstone, the shape list itself** as it is assembled from the translated `image/base.py:BaseImage.is_eye`, `pixel_box` (and
+    `pixel_size` for the document size) - the right-hand side of `C13_source_svgDoc_src`, with the drawers' shape function the
+    Model's `drawShape`: it satisfies `Spec.shapesOK` for every factory, drawers of ratio ≤ 1, matrix, width, border and box
+    size.  From `C13_source_svgDoc_src`, `C13_shapes`. -/
+theorem C13_source_capstone_shapes (f : SvgFactory) (md ed : SvgDrawer) (M : Mods) (n border box : Nat)
+    (hm : md.num ≤ md.den) (he : ed.num ≤ ed.den) :
+    Spec.shapesOK M n border box
+      (((List.range n).flatMap fun r => (List.range n).filterMap fun c =>
+          if (M.getD r []).getD c false then
+            let d := if is_eye n r c then ed else md
+            let bx := pixel_box border box r c
+            some (2 * d.den, drawShape f.isPath d box bx.1.1 bx.1.2)
+          else none).map Proofs.Svg.blobOf) = true := by
+  have h := C13_shapes f md ed M n border box hm he
+  rw [C13_source_svgDoc_src] at h
+  exact h
+
+/-- the translated loop run on the 9 x 9 matrix of the non-vacuity example above (6 dark modules, inside and outside the eyes),
+    element factory `SvgImage`, gapped-circle module drawer, square eye drawer: 6 elements appended -/
+example :
+    let M : Mods := (List.range 9).map fun r => (List.range 9).map fun c => r == c && r % 2 == 0 || (r == 7 && c == 8)
+    let img := makeImageDraw "SvgImage" 9 M
+        (rd_drawrect_context 4 10 9 ⟨.square, 1, 1⟩ ⟨.circle, 4, 5⟩ (needsNeighbors false) (fun _ _ => false) id M
+          (svgDrawrect false (fun p => { tag := "shape", attrs := [("den", toString p.1)] }) (fun _ => "") 10))
+        (fun _ _ i => i) rd_svg_path_process { img := [], subpaths := [], path := none }
+    img.img.length = 6 := by decide
+end Capstone
+
 /-- the Python functions this property's model mirrors have, in /repo's current working tree, exactly the normalised
     ASTs the model was written and validated against (fingerprints regenerated by T1 on every run) -/
 theorem C13_source_fingerprints : QR.Gen.fp_C13 = QR.Pinned.fp_C13 := by decide
